@@ -127,7 +127,9 @@ claim("C15", "DESIGN.md 5/C15 and 9", "Lean theorems: serialize_parse_roundtrip 
 claim("C16", "DESIGN.md 5/C16", "Lean theorems over tables regenerated from the source (decide) + conversion-rule theorems + whole-pipeline correspondence + hand-mapped equivalence oracle",
       "Generated/Eems2Table.lean and Generated/Decls.lean are rewritten from mpilot.utils.EEMS_COMMANDS and the command registry on every run; table_total_except_known re-proves by kernel "
       "evaluation that every mapped name exists in both library sets (the two ScoreRange rows are the listed known finding, proved missing by scorerange_targets_missing). convertNode_spec, "
-      "result_name_*, no_result_name_rejected, trigger, convert_mpilot_style state the translation rule. The model's whole pipeline (parse, convert, load) is compared with from_source on random EEMS 2.0 "
+      "result_name_*, no_result_name_rejected, trigger, convert_mpilot_style state the translation rule. Whole files: convertAll_spec (conversion is the mapping applied command by command, in order), targets_not_keys (kernel evaluation on the regenerated table: no target is itself an EEMS 2.0 name), "
+      "eems2_file_equiv / eems2_file_equiv_builtin (a file treated as EEMS 2.0 and the MPilot-syntax file whose commands are the mapped ones load - with any libraries, into any program - to the same program or the same error), "
+      "eems2_results_equal (running the two is the same computation for any command semantics), eems2_unconvertible_rejected (a command without usable name rejects the whole file with a ProgramError on a line of the file); a concrete pair of files satisfying the premises is checked by kernel evaluation of the model's parser. The model's whole pipeline (parse, convert, load) is compared with from_source on random EEMS 2.0 "
       "and mixed files; each file is also compared with the MPilot file written by hand from the mapping rule (structure and results with the real bodies).", XB)
 
 claim("C17", "DESIGN.md 5/C17", "Lean theorems on the column-reading logic + correspondence incl. a model of the csv reader/writer + order/type/mask/line oracles and bit-identity round trip",
